@@ -149,6 +149,6 @@ def run_case(desc, seed, tier):
 
 def replay(rp):
     ok, msg, _ = circuit_check.concrete_eval(
-        rp["circuit"], rp["semiring"], rp["fold"], rp["optimize"], rp["B"], rp.get("overrides", {}), rp.get("seed", 0), rp.get("monotone", False), None, rp.get("normalized", False)
+        rp["circuit"], rp["semiring"], rp["fold"], rp["optimize"], rp["B"], rp.get("overrides", {}), rp.get("seed", 0), rp.get("monotone", False), None, rp.get("normalized", False), rp.get("oracle")
     )
     return ok, msg
